@@ -14,8 +14,10 @@ use; each theorem is the round trip `generate → abstract writer → parseRoot`
                        proper subclass, written with `xsi:type` and found again by `find_subclass`
 * `bind_generate_FN` : any subset of these features
 
-The value-level exclusions of `FN.valOK` that are genuine defects of the code have machine-checked
-witnesses below, replayed on the real code (`known_findings.json`).
+No hypothesis restricts the namespaces of classes and fields (repair `c01g-01`).  The value-level
+exclusions of `FN.valOK` that are genuine defects of the code have machine-checked witnesses below,
+replayed on the real code (`known_findings.json`); the former witnesses of the defects repaired by
+`repo-patches/c01g-02 … c01g-08` are now `…_repaired` theorems (instances of the round trip).
 -/
 import XsdataModel.Props.C01
 import XsdataModel.Proofs.C01NInduct
@@ -252,8 +254,7 @@ def featF6 : Feat :=
 
 /-- **C01, fragment F6** = F5 + one `Attributes` map per class (any `namespace`) + `init=False` fields
 with a primitive default.  The map's keys must match the namespaces of the var, be distinct from the declared
-attributes and not in the `xsi` namespace; its values must not look like `prefix:rest`; a nillable
-class with a map (or a non-nillable class with a map under a nillable var) needs content. -/
+attributes and not in the `xsi` namespace; its values must not look like `prefix:rest`. -/
 theorem bind_generate_F6 (e : BEnv) (Γ : Ctx) (cfg : SerCfg) (pcfg : ParserConfig) (c : ClassId) (v : Val)
     (hΓ : ctxOK featF6 Γ = true) (hv : valOK e Γ c v = true) :
     ∃ evs t, generate e Γ cfg v = .ok evs ∧ eventsTree (isDatatype Γ) evs = .ok t ∧
@@ -335,9 +336,8 @@ def featF7 : Feat :=
     inherit := true }
 
 /-- **C01, fragment F7** = F6 + instances of proper subclasses under element vars (`valOKI true`):
-the subclass has a qualified name that is an NCName, differs from the element name (otherwise no
-`xsi:type` is written) and is what `XmlContext.find_subclass` finds from the declared class; it has no
-`Attributes` map (the map would capture `xsi:type`). -/
+the subclass has a qualified name that is an NCName and is what `XmlContext.find_subclass` finds from
+the declared class. -/
 theorem bind_generate_F7 (e : BEnv) (Γ : Ctx) (cfg : SerCfg) (pcfg : ParserConfig) (c : ClassId) (v : Val)
     (hΓ : ctxOK featF7 Γ = true) (hv : valOKI true e Γ c v = true) :
     ∃ evs t, generate e Γ cfg v = .ok evs ∧ eventsTree (isDatatype Γ) evs = .ok t ∧
